@@ -22,7 +22,8 @@ def _one(args):
                 import re
                 first = [l for l in q.stdout.splitlines() if re.match(r'^  C\d+-R\w+: ', l)]
                 return (patch, 'detected', (first[0].strip()[:200] if first else viol[0]))
-            return (patch, 'missed', 'exit %d, no VIOLATION line' % q.returncode)
+            broken = [l for l in q.stdout.splitlines() if l.startswith('ANALYSIS-BROKEN')] + q.stderr.strip().splitlines()[-1:]
+            return (patch, 'missed', 'exit %d, no VIOLATION line%s' % (q.returncode, (' (' + broken[0][:160] + ')') if broken else ''))
         else:
             if q.returncode == 0 and not viol:
                 return (patch, 'silent', '')
